@@ -162,6 +162,9 @@ BadErr(ev) ==
    \cup If(ev.err.kind = "MissingFiniteBounds" /\
            (\E v \in Rng(ev.err.variables) : v \notin Rng(ev.err.exprvars) \/ (v \in Declared(ev) /\ ~HasInfSide(ev, v))),
            "missing-bounds error names a variable that is bounded or not in the expression")
+   \* an expression without a finite range contains a variable without one: the error must name at least one
+   \cup If(ev.err.kind = "MissingFiniteBounds" /\ Len(ev.err.variables) = 0 /\ Len(ev.err.exprvars) > 0,
+           "missing-bounds error names no variable although the expression contains variables")
 CheckWF(ev) ==
    LET bad == CASE ev.out = "ok" -> IllFormed(ev) [] ev.out = "err" -> BadErr(ev)
                 [] ev.out = "panic" -> {"panic"} [] OTHER -> {}
